@@ -458,7 +458,7 @@ func cmdRun(prop, tier string) int {
 			r.props = stg.Props
 		}
 		if r.hang == 0 {
-			r.hang = 20
+			r.hang = 45 // liveness deadline between two heartbeats; generous, the box may be loaded
 		}
 		if def.Params != nil {
 			r.params = def.Params(tier)
